@@ -254,3 +254,126 @@ Check rg_model_listing_eq_git_listing :
     grammar_igs igs -> Forall (fun e => Forall comp_ok (fst e)) entries ->
     filter (fun e => visited re_spec (parse_igs ci igs) (fst e) (snd e)) entries =
     filter (fun e => git_visited ci igs (fst e) (snd e)) entries.
+
+(* ------------------------------------------------------------------------------------------------------------
+   Bracket expressions in full (Spec/GlobClassSyntax.v, written from glob(7)/fnmatch(3), to which gitignore(5)
+   refers, and the globset documentation): optional complement mark `!` or `^`; a `]` (or `-`) that is the FIRST
+   member stands for itself; a `-` written last stands for itself; never empty. *)
+From RG Require Import Spec.GlobClassSyntax Proofs.GlobClassProofs Proofs.GlobClassMeaningProofs
+  Proofs.GitLinesIndependentProofs.
+
+(* 17. the class parser on the text of a documented bracket expression (what follows the `[`), in ANY parser state
+       with a non-empty stack (top level or between braces), whatever follows: it consumes exactly the class and
+       pushes exactly the documented token — complement flag set by either mark, the members in the order written,
+       a leading `]`/`-` and a trailing `-` as single-character members. *)
+Theorem parse_class_documented :
+  forall (d : dclass) (top : list token) (stk : list (list token)) (rest : list N) (pv cu : option N),
+    dclass_ok d = true ->
+    exists pv',
+      parse_class (mk_parser (top :: stk) (render_dclass_body d ++ rest) pv cu)
+      = Ok (mk_parser ((top ++ [dclass_token d]) :: stk) rest pv' (Some 93%N)).
+Proof. exact parse_class_documented_proof. Qed.
+Print Assumptions parse_class_documented.
+
+(* 18. the documented alternate-free glob syntax of C12's parse_documented_syntax with these classes as items
+       (next to literals, `?`, `*`, the plain classes, around `**`): the parser yields the documented tokens. *)
+Theorem parse_documented_syntax_classes :
+  forall (o : gopts) (ps : list xpiece),
+    backslash_escape o = true -> xglob_ok ps = true ->
+    build o (render_xglob ps) = Some (Ok (xglob_tokens ps)).
+Proof. exact xbuild_render_proof. Qed.
+Print Assumptions parse_documented_syntax_classes.
+
+(* 19. the plain classes of Spec/GlobSyntax.v are the instances without mark, leading `]`/`-` and trailing `-` *)
+Theorem class_syntax_conservative :
+  forall ms : list (N * N),
+    item_ok (IClass ms) = true ->
+    dclass_ok (dclass_of_members ms) = true /\
+    render_dclass (dclass_of_members ms) = render_item (IClass ms) /\
+    dclass_token (dclass_of_members ms) = item_tok (IClass ms).
+Proof. exact class_syntax_conservative_proof. Qed.
+Print Assumptions class_syntax_conservative.
+
+(* 20. meaning: the glob that consists of one documented bracket expression parses, and (case-sensitive) matches
+       exactly the one-character paths the documentation says the class stands for — `/` included when the class
+       admits it: that is the known finding ClassMatchesSeparator, statement 16 *)
+Theorem class_glob_meaning :
+  forall (o : gopts) (d : dclass) (b : N),
+    backslash_escape o = true -> case_insensitive o = false -> dclass_ok d = true ->
+    exists ts, build o (render_dclass d) = Some (Ok ts) /\ tmatch o ts [b] = dclass_admits d b.
+Proof. exact class_glob_meaning_proof. Qed.
+Print Assumptions class_glob_meaning.
+
+(* 21. whatever the glob text: every class token the parser produces is non-empty with ascending ranges (also inside
+       alternates), so the regex emitted for it is a valid bracket expression.  An EMPTY class (`[^]`) would be an
+       invalid regex, and because the regexes of one ignore file are compiled as one set, it would make the whole
+       file's matcher fail to build (create_gitignore then installs an empty matcher: every line lost). *)
+Theorem parsed_class_tokens_wellformed :
+  forall (o : gopts) (g : list N) (ts : list token), build o g = Some (Ok ts) -> toks_wf ts = true.
+Proof. exact build_tokens_wf_proof. Qed.
+Print Assumptions parsed_class_tokens_wellformed.
+
+(* 22. the lines of one ignore file are independent: a line add_line does not turn into a glob (comment, blank,
+       parse error) contributes nothing and takes nothing away from the lines before and after it ... *)
+Theorem unparsable_line_skipped :
+  forall (ci : bool) (before : list bytes) (bad : bytes) (after : list bytes),
+    (forall g, add_line ci bad <> LGlob g) ->
+    add_lines ci (before ++ bad :: after) = add_lines ci (before ++ after).
+Proof. exact unparsable_line_skipped_proof. Qed.
+Print Assumptions unparsable_line_skipped.
+
+(* 23. ... and every line that IS accepted carries well-formed tokens: no accepted line can be the one invalid
+       regex that poisons the set of its file *)
+Theorem accepted_lines_tokens_wf :
+  forall (ci : bool) (lines : list bytes) (g : iglob),
+    In g (add_lines ci lines) -> toks_wf (g_tokens (ig_glob g)) = true.
+Proof. exact accepted_lines_tokens_wf_proof. Qed.
+Print Assumptions accepted_lines_tokens_wf.
+
+(* non-vacuity: `[^]-]` (neither `]` nor `-`), `[!]a-c-]`, `[]-a]` (the range from `]` to `a`), `[-]`;
+   `n[^]-]m` as a glob; an ignore file with a rejected line between two accepted ones *)
+Example ex_documented_classes :
+  let d1 := mk_dclass NegCaret [(93, 93)%N] true in
+  let d2 := mk_dclass NegBang [(93, 93); (97, 99)]%N true in
+  let d3 := mk_dclass NegNone [(93, 97)%N] false in
+  let d4 := mk_dclass NegNone [] true in
+  forallb dclass_ok [d1; d2; d3; d4] = true /\
+  render_dclass d1 = [91; 94; 93; 45; 93]%N /\ dclass_token d1 = TClass true [(93, 93); (45, 45)]%N /\
+  render_dclass d2 = [91; 33; 93; 97; 45; 99; 45; 93]%N /\ dclass_token d2 = TClass true [(93, 93); (97, 99); (45, 45)]%N /\
+  render_dclass d3 = [91; 93; 45; 97; 93]%N /\ dclass_token d3 = TClass false [(93, 97)]%N /\
+  render_dclass d4 = [91; 45; 93]%N /\ dclass_token d4 = TClass false [(45, 45)]%N /\
+  map (dclass_admits d1) [93; 45; 49; 47]%N = [false; false; true; true] /\
+  dclass_ok (mk_dclass NegCaret [] false) = false /\
+  (let g := [XPComp [XI (IPlain 110); XClass d1; XI (IPlain 109)]] in
+   xglob_ok g = true /\ render_xglob g = [110; 91; 94; 93; 45; 93; 109]%N /\
+   build (mk_gopts false true true false) (render_xglob g)
+   = Some (Ok [TLit 110; TClass true [(93, 93); (45, 45)]%N; TLit 109])).
+Proof. vm_compute. repeat split. Qed.
+
+Example ex_lines_independent :
+  let lines := [[42; 46; 108; 111; 103]; [91; 98; 45; 97; 93]; [110; 91; 94; 93; 45; 93; 109]]%N in   (* *.log  [b-a]  n[^]-]m *)
+  length (add_lines false lines) = 2 /\
+  add_lines false lines = add_lines false [[42; 46; 108; 111; 103]; [110; 91; 94; 93; 45; 93; 109]]%N /\
+  forallb (fun g => toks_wf (g_tokens (ig_glob g))) (add_lines false lines) = true /\
+  toks_wf [TClass true []] = false.
+Proof. vm_compute. repeat split. Qed.
+
+Check parse_class_documented :
+  forall (d : dclass) (top : list token) (stk : list (list token)) (rest : list N) (pv cu : option N),
+    dclass_ok d = true ->
+    exists pv',
+      parse_class (mk_parser (top :: stk) (render_dclass_body d ++ rest) pv cu)
+      = Ok (mk_parser ((top ++ [dclass_token d]) :: stk) rest pv' (Some 93%N)).
+Check parse_documented_syntax_classes :
+  forall (o : gopts) (ps : list xpiece),
+    backslash_escape o = true -> xglob_ok ps = true ->
+    build o (render_xglob ps) = Some (Ok (xglob_tokens ps)).
+Check parsed_class_tokens_wellformed :
+  forall (o : gopts) (g : list N) (ts : list token), build o g = Some (Ok ts) -> toks_wf ts = true.
+Check unparsable_line_skipped :
+  forall (ci : bool) (before : list bytes) (bad : bytes) (after : list bytes),
+    (forall g, add_line ci bad <> LGlob g) ->
+    add_lines ci (before ++ bad :: after) = add_lines ci (before ++ after).
+Check accepted_lines_tokens_wf :
+  forall (ci : bool) (lines : list bytes) (g : iglob),
+    In g (add_lines ci lines) -> toks_wf (g_tokens (ig_glob g)) = true.
